@@ -158,7 +158,9 @@ def create_database(
     file_hash_path = _get_file_hash_path(cmd.zettel_dir)
     file_to_hash = _get_file_hash_map(cmd.zettel_dir)
     _write_file_hash_to_disk(file_hash_path, file_to_hash)
-    error_file_whitelist.write_text("\n".join(sorted(error_files)))
+    c.atomic_write_text(
+        error_file_whitelist, "\n".join(sorted(error_files))
+    )
     session.commit()
 
 
@@ -247,7 +249,9 @@ def reindex_database(
         c.zprint("NO ZORG FILES HAVE BEEN MODIFIED")
 
     _write_file_hash_to_disk(file_hash_path, file_to_hash)
-    error_file_whitelist.write_text("\n".join(sorted(error_files)))
+    c.atomic_write_text(
+        error_file_whitelist, "\n".join(sorted(error_files))
+    )
     session.commit()
 
 
@@ -330,8 +334,8 @@ def _write_file_hash_to_disk(
     file_hash_path: Path, file_to_hash: dict[str, str]
 ) -> None:
     _LOGGER.debug("Writing hash map to disk", file=str(file_hash_path))
-    with file_hash_path.open("w") as f:
-        json.dump(dict(sorted(file_to_hash.items())), f, indent=4)
+    file_hash_json = json.dumps(dict(sorted(file_to_hash.items())), indent=4)
+    c.atomic_write_text(file_hash_path, file_hash_json)
 
 
 def _add_zid_to_line(zid: str, line: str) -> str:
@@ -485,7 +489,7 @@ def _update_zo_file(
         zorg_page=str(zo_path),
         notes_to_update=len(notes_to_update),
     )
-    zo_path.write_text("\n".join(zlines))
+    c.atomic_write_text(zo_path, "\n".join(zlines))
 
     # Only refresh the hash of the file we just rewrote. Refreshing the hashes
     # of ALL files here would hide edits made to files that have not been
